@@ -53,7 +53,9 @@ struct Judge {
   bool expect(const Soup& r, const V3& p, int expected, const char* what) {
     double w = r.t.empty() ? 0.0 : oracle::Winding(r, p);
     long k = std::lround(w);
-    if (std::abs(w - k) > 1e-6 || k != expected) {
+    // the solid-angle sum is an integer only up to cancellation noise, which reaches 1e-6 for points as close
+    // as 1e-6*scale to an edge; 1e-3 still separates every integer
+    if (std::abs(w - k) > 1e-3 || k != expected) {
       o.fail(std::string("general:classify-") + what,
              verif::fmt("point (%.17g,%.17g,%.17g): result winding %.9g, set formula says %d", p.x, p.y, p.z, w, expected));
       return false;
@@ -109,7 +111,7 @@ void Body(Tape& t, Outcome& o) {
       for (auto& p : *set) {
         double w = oracle::Winding(s, p);
         long k = std::lround(w);
-        if (oracle::SurfaceDist(s, p) > 1e-7 * scale && (std::abs(w - k) > 1e-6 || (k != 0 && k != 1))) {
+        if (oracle::SurfaceDist(s, p) > 1e-7 * scale && (std::abs(w - k) > 1e-3 || (k != 0 && k != 1))) {
           o.counters["discard_invalid_operand"]++;
           o.exclude("operand-not-0/1-winding (precondition)");
           return;
